@@ -20,6 +20,7 @@ from designs.oracle import Oracle
 from spec.seq import N, NW, at_most_one, bit, le, nmod
 
 PROPERTY = "C09"
+HISTORY_LEMMAS = ['served_within']  # lemmas/History.lean: one-cycle contracts => history-level statement (Lean 4)
 LEVEL = "proof"
 ASSUMPTIONS = corelib.CORE_ASSUMPTIONS[1:] + [
     "design shapes: conflict components of 1-5 transactions (shared methods, chains, explicit conflicts, validators), no ready dependencies inside a component; all inputs, all histories from any state satisfying the invariant",
